@@ -1759,7 +1759,7 @@ func display(tokens []Token, _ string) pr.CssProperty {
 		if !ok {
 			return nil
 		}
-		value := string(ident.Value)
+		value := utils.AsciiLower(ident.Value)
 		switch value {
 		case "block", "inline":
 			if outside != "" {
@@ -1890,7 +1890,7 @@ func parseFontVariant(tokens []Token, all utils.Set, couples [][]string) pr.SStr
 		if !isIdent {
 			return pr.SStrings{}
 		}
-		identValue := string(ident.Value)
+		identValue := utils.AsciiLower(ident.Value)
 		if all.Has(identValue) {
 			var concurrentValues []string
 			for _, couple := range couples {
@@ -1993,7 +1993,7 @@ func _fontFeatureSettings(tokens []Token) (pr.FontFeatures, bool) {
 			tokens, token = tokens[0:1], tokens[1]
 			switch tt := token.(type) {
 			case pa.Ident:
-				if tt.Value == "on" {
+				if utils.AsciiLower(tt.Value) == "on" {
 					value = 1
 				} else {
 					value = 0
@@ -2275,7 +2275,7 @@ func listStyleType_(tokens []Token) (out pr.CounterStyleID, ok bool) {
 	case pa.String:
 		return pr.CounterStyleID{Type: "string", Name: token.Value}, true
 	case pa.FunctionBlock:
-		if token.Name != "symbols" {
+		if utils.AsciiLower(token.Name) != "symbols" {
 			return out, false
 		}
 		functionArguments := pa.RemoveWhitespace(token.Arguments)
@@ -2284,8 +2284,8 @@ func listStyleType_(tokens []Token) (out pr.CounterStyleID, ok bool) {
 		}
 		arguments := []string{"symbolic"}
 		if arg0, ok := functionArguments[0].(pa.Ident); ok {
-			if arg0.Value == "cyclic" || arg0.Value == "numeric" || arg0.Value == "alphabetic" || arg0.Value == "symbolic" || arg0.Value == "fixed" {
-				arguments = []string{string(arg0.Value)}
+			if kw := utils.AsciiLower(arg0.Value); kw == "cyclic" || kw == "numeric" || kw == "alphabetic" || kw == "symbolic" || kw == "fixed" {
+				arguments = []string{kw}
 				functionArguments = functionArguments[1:]
 			} else {
 				return out, false
@@ -2489,8 +2489,8 @@ func position(tokens []Token, _ string) pr.CssProperty {
 		return nil
 	}
 	token := tokens[0]
-	if fn, ok := token.(pa.FunctionBlock); ok && fn.Name == "running" && len(fn.Arguments) == 1 {
-		if ident, ok := (fn.Arguments)[0].(pa.Ident); ok {
+	if name, args := pa.ParseFunction(token); name == "running" && len(args) == 1 {
+		if ident, ok := args[0].(pa.Ident); ok {
 			return pr.BoolString{Bool: true, String: string(ident.Value)}
 		}
 	}
